@@ -36,6 +36,7 @@ type c23Local struct {
 func varsKey(m map[string]string) string { return fmt.Sprint(m) }
 
 func c23() int {
+	tuneRuntime()
 	r := ev.Start("C23", ev.LevelExploration, 100*time.Second, 15*time.Minute)
 	sp := numscriptSpace(r.Thorough())
 	samples := ev.NewSamples(6)
@@ -154,19 +155,19 @@ func c23() int {
 		}
 	}
 	cov := ev.Coverage{
-		"distinct_nontrivial":  nontrivial.Load(),
-		"rule":                 sp.Rule + "; distinct_nontrivial = distinct programs that compiled AND had at least one successful run producing >= 1 posting; binding program = same program and variables, one balance vector succeeds with a debited bounded source ending exactly at min(initial,-bound) and another balance vector fails with insufficient funds",
-		"samples":              samples.List(),
-		"exhaustive":           all,
-		"stages":               stages,
-		"bounds_fully_covered": coveredStages(stages),
-		"bounded_source_accounts_checked":     accountsChecked.Load(),
-		"account_asset_pairs_checked":         pairsChecked.Load(),
-		"unbounded_or_world_sources_skipped":  unboundedSkipped.Load(),
-		"runs_ending_exactly_at_floor":        atFloorRuns.Load(),
-		"runs_using_overdraft_down_to_bound":  overdraftUsedRuns.Load(),
-		"programs_where_bound_is_binding":     bindingPrograms.Load(),
-		"traces_validated_against_impl":       st.Evals.Load(),
+		"distinct_nontrivial":                nontrivial.Load(),
+		"rule":                               sp.Rule + "; distinct_nontrivial = distinct programs that compiled AND had at least one successful run producing >= 1 posting; binding program = same program and variables, one balance vector succeeds with a debited bounded source ending exactly at min(initial,-bound) and another balance vector fails with insufficient funds",
+		"samples":                            samples.List(),
+		"exhaustive":                         all,
+		"stages":                             stages,
+		"bounds_fully_covered":               coveredStages(stages),
+		"bounded_source_accounts_checked":    accountsChecked.Load(),
+		"account_asset_pairs_checked":        pairsChecked.Load(),
+		"unbounded_or_world_sources_skipped": unboundedSkipped.Load(),
+		"runs_ending_exactly_at_floor":       atFloorRuns.Load(),
+		"runs_using_overdraft_down_to_bound": overdraftUsedRuns.Load(),
+		"programs_where_bound_is_binding":    bindingPrograms.Load(),
+		"traces_validated_against_impl":      st.Evals.Load(),
 	}
 	st.fill(cov)
 	return r.Finish(cov, []string{
